@@ -112,6 +112,63 @@ Fixpoint ucollect (rv : bool) (fuel : nat) (c : ucur) : list kv :=
 Definition union_iter (rv : bool) (d s : list kv) : list kv :=
   ucollect rv (S (length d + length s)) (update_cur rv d s).
 
+(* ---------- UnionIter over inner iterators whose Next may fail ---------- *)
+(* an inner iterator over a list fails when its Next leaves entry number fail-1 (fail = 0: never). The error
+   surfaces exactly where the Go code returns it: NewUnionIter (first updateCur), dirtyNext / snapshotNext inside
+   updateCur, or the Next of the current side. *)
+Definition fails_at (f i : nat) : bool := Nat.ltb 0 f && Nat.eqb (S i) f.
+
+Fixpoint update_cur_f (rv : bool) (fd fs : nat) (d : list kv) (di : nat) (s : list kv) (si : nat)
+  : option (ucur * nat * nat) :=
+  match d with
+  | [] => Some (match s with [] => mk_ucur [] [] false false | _ => mk_ucur [] s false true end, di, si)
+  | (dk, dv) :: d' =>
+      match s with
+      | [] =>
+          if is_tomb dv then (if fails_at fd di then None else update_cur_f rv fd fs d' (S di) [] si)
+          else Some (mk_ucur d [] true true, di, si)
+      | (sk, sv) :: s' =>
+          match dcmp rv dk sk with
+          | Eq =>
+              if is_tomb dv then
+                if fails_at fd di then None
+                else if fails_at fs si then None
+                else update_cur_f rv fd fs d' (S di) s' (S si)
+              else if fails_at fs si then None
+              else Some (mk_ucur d s' true true, di, S si)
+          | Gt => Some (mk_ucur d s false true, di, si)
+          | Lt =>
+              if is_tomb dv then (if fails_at fd di then None else update_cur_f rv fd fs d' (S di) s si)
+              else Some (mk_ucur d s true true, di, si)
+          end
+      end
+  end.
+
+(* yielded entries and whether the iteration ended with the inner iterator's error *)
+Fixpoint ucollect_f (rv : bool) (fd fs : nat) (fuel : nat) (c : option (ucur * nat * nat)) : list kv * bool :=
+  match fuel with
+  | O => ([], false)
+  | S f =>
+      match c with
+      | None => ([], true)
+      | Some (c, di, si) =>
+          if u_valid c then
+            match ucur_kv c with
+            | Some e =>
+                let nxt :=
+                  if u_dirty c
+                  then (if fails_at fd di then None else update_cur_f rv fd fs (tl (u_d c)) (S di) (u_s c) si)
+                  else (if fails_at fs si then None else update_cur_f rv fd fs (u_d c) di (tl (u_s c)) (S si)) in
+                let '(l, err) := ucollect_f rv fd fs f nxt in (e :: l, err)
+            | None => ([], false)
+            end
+          else ([], false)
+      end
+  end.
+
+Definition union_iter_f (rv : bool) (fd fs : nat) (d s : list kv) : list kv * bool :=
+  ucollect_f rv fd fs (S (length d + length s)) (update_cur_f rv fd fs d 0 s 0).
+
 (* KVUnionStore.Iter / IterReverse on an ascending buffer content and snapshot content *)
 Definition us_iter (buf snap : list kv) (lo hi : key) : list kv :=
   union_iter false (range lo hi buf) (range lo hi snap).
